@@ -98,6 +98,13 @@ class FakeOS:
     def write(self, fd, data):
         if fd != self.gw.fd or not self.gw.present:
             raise OSError(errno.ENODEV, "device gone")
+        if self.gw.fail_write_in is not None:
+            # the device goes away between two writes that follow each other without an await (n-th write from now)
+            self.gw.fail_write_in -= 1
+            if self.gw.fail_write_in <= 0:
+                self.gw.fail_write_in = None
+                self.gw.write_fails = True
+                self.gw.present = False
         if self.gw.write_fails:
             raise OSError(errno.EIO, "write failed")
         self.gw.on_write(bytes(data))
@@ -114,6 +121,7 @@ class Gateway:
         self.glob_mode = False
         self.eof = False
         self.write_fails = False
+        self.fail_write_in = None
         self.fd = None
         self.opens = self.closes = 0
         self.open_attempts = []  # (virtual time, succeeded)
@@ -311,6 +319,7 @@ class HidSim:
         self.gw.present = True
         self.gw.eof = False
         self.gw.write_fails = False
+        self.gw.fail_write_in = None
 
     def start(self, coro, tag=None):
         t = self.loop.create_task(coro)
